@@ -104,6 +104,7 @@ struct Run {
   bool descDirty = true;
   int lanes = 2;
   bool serial = false;
+  bool traceOn = false;
   std::vector<std::string> baseEnv;
 
   // observation
@@ -530,6 +531,7 @@ void Run::load() {
   if (!cfg) cfg = &empty;
   lanes = (int)cfg->getn("lanes", 2);
   serial = cfg->getb("serial");
+  traceOn = cfg->getb("trace");
   for (auto& e : cfg->geta("base_env")) baseEnv.push_back(e.s);
   if (const Json* d = plan.find("desc")) desc = Desc::fromJson(*d);
   simfs::fs().mkdirs(kWork);
@@ -762,6 +764,7 @@ void Run::opBuild(const Json& op) {
       S.inv.dbPath = "build.db";
       S.inv.useSerialBuild = serial;
       S.inv.schedulerLanes = (uint32_t)lanes;
+      if (traceOn) S.inv.traceFilePath = std::string(kWork) + "/trace/build.trace";
       S.envStore = baseEnv;
       for (auto& e : S.envStore) S.envp.push_back(e.c_str());
       S.envp.push_back(nullptr);
@@ -1628,6 +1631,7 @@ struct Gen {
     Json cfg = Json::obj();
     cfg.set("lanes", (int64_t)rng.range(1, 4));
     cfg.setb("serial", rng.chance(250));
+    cfg.setb("trace", rng.chance(100));   // build-system tracing to a file
     cfg.set("policy", (int64_t)rng.below(3));
     static const int sticky[] = {500, 900, 990};
     cfg.set("sticky", sticky[rng.below(3)]);
